@@ -1,8 +1,242 @@
+import RichModel.Model.Style
 import RichModel.Drv.Proto
-/- Driver handlers for property C06 (stub: filled in when the model is built). -/
-namespace RichModel.Drv.C06
-open RichModel RichModel.Proto
+/-
+Driver handlers for property C06 (Style algebra / text round trip / hashing).
 
-def handlers : List (String × (List String → String)) := []
+Wire formats
+* flags   : six characters 0/1 in the field order of `Variant`
+            (rgbValueError addHash fromColorHash withoutColorHash updateLinkHash updateLinkDef)
+* string  : space separated decimal code points ("" = empty)
+* optstr  : `-` (None) or `=` followed by a string
+* color   : `-` (None) or `name/type/number/triplet`, number `-`|n, triplet `-`|r.g.b
+* style   : `color|bgcolor|attributes|set_attributes|link`
+* state   : style `|n`null `|d`optstr(_style_definition) `|s`str() `|a`13×(-,0,1) `|h`(stored hash key = key of fields)
+* route   : prefix term, tokens separated by `;`
+    N | I;colorarg;colorarg;kw13;optstr | F;color;color | P;string | A;r;r | O;r | C;r | U;optstr;r
+    | W;r | T;r | H;n;r…r | B;r          colorarg = `-` | `S:`string | `C:`color
+Any string containing a code point >= 128 makes the whole request `unmodelled`.
+-/
+namespace RichModel.Drv.C06
+open RichModel RichModel.Proto RichModel.AsciiStr
+
+def decFlags (s : String) : Option Variant :=
+  match s.toList.map (· == '1') with
+  | [a, b, c, d, e, f] => some ⟨a, b, c, d, e, f⟩
+  | _ => none
+
+/-- A string of the request; `none` if it leaves the modelled (ASCII) domain. -/
+def decS (s : String) : Option (List Char) :=
+  let cs := decStr s
+  if allAscii cs then some cs else none
+
+def decOptS (s : String) : Option (Option (List Char)) :=
+  if s == "-" then some none
+  else if s.startsWith "=" then (decS (s.drop 1).toString).map some
+  else none
+
+def encOptS : Option (List Char) → String
+  | none => "-"
+  | some l => "=" ++ encStr l
+
+def decType : String → Option ColorType
+  | "0" => some .default | "1" => some .standard | "2" => some .eightBit
+  | "3" => some .truecolor | "4" => some .windows | _ => none
+
+def decColor (s : String) : Option (Option Color) :=
+  if s == "-" then some none
+  else match s.splitOn "/" with
+  | [n, t, num, trip] => do
+    let name ← decS n
+    let ty ← decType t
+    let number ← if num == "-" then some none else num.toNat?.map some
+    let triplet ← if trip == "-" then some none else
+      match trip.splitOn "." with
+      | [r, g, b] => do
+        let r ← r.toNat?
+        let g ← g.toNat?
+        let b ← b.toNat?
+        pure (some (⟨r, g, b⟩ : Triplet))
+      | _ => none
+    pure (some { name := name, type := ty, number := number, triplet := triplet })
+  | _ => none
+
+def encColor : Option Color → String
+  | none => "-"
+  | some c =>
+    encStr c.name ++ "/" ++ toString c.type.toNat ++ "/" ++ encOptNat c.number ++ "/" ++
+      (match c.triplet with
+       | none => "-"
+       | some t => toString t.red ++ "." ++ toString t.green ++ "." ++ toString t.blue)
+
+def decColorArg (s : String) : Option (Option Style.ColorArg) :=
+  if s == "-" then some none
+  else if s.startsWith "S:" then (decS (s.drop 2).toString).map (fun x => some (.str x))
+  else if s.startsWith "C:" then
+    match decColor (s.drop 2).toString with
+    | some (some c) => some (some (.color c))
+    | _ => none
+  else none
+
+def decKw (s : String) : Style.Kwargs :=
+  s.toList.map fun c => if c == '1' then some true else if c == '0' then some false else none
+
+def encTri : Option Bool → String
+  | none => "-" | some true => "1" | some false => "0"
+
+def encStyle (s : Style) : String :=
+  encColor s.color ++ "|" ++ encColor s.bgcolor ++ "|" ++ toString s.attributes ++ "|" ++
+    toString s.setAttributes ++ "|" ++ encOptS s.link
+
+def encState (s : Style) : String :=
+  encStyle s ++ "|n" ++ encBool s.isNull ++ "|d" ++ encOptS s.styleDef ++ "|s" ++ encStr s.str ++
+    "|a" ++ String.join ((List.range 13).map fun i => encTri (s.attr i)) ++
+    "|h" ++ encBool (decide (s.hashKey = s.fieldsKey))
+
+def encErr : StyleErr → String
+  | .colorParse => "err:ColorParseError"
+  | .styleSyntax => "err:StyleSyntaxError"
+  | .valueError => "err:Other:ValueError"
+  | .stopIteration => "err:Other:StopIteration"
+
+/-- Route terms (driver-local; the proofs use the `Reachable` predicate of Lemmas/Style). -/
+inductive Route where
+  | null
+  | init (c b : Option Style.ColorArg) (kw : Style.Kwargs) (link : Option (List Char))
+  | fromColor (c b : Option Color)
+  | parse (s : List Char)
+  | add (a b : Route)
+  | addNone (a : Route)
+  | copy (a : Route)
+  | updateLink (link : Option (List Char)) (a : Route)
+  | withoutColor (a : Route)
+  | touch (a : Route)
+  | chain (rs : List Route)
+  | background (a : Route)
+
+mutual
+/-- Decode one route from the token stream; `none` = malformed or outside the modelled domain. -/
+partial def decRoute : List String → Option (Route × List String)
+  | "N" :: r => some (.null, r)
+  | "I" :: c :: b :: kw :: l :: r => do
+    let c ← decColorArg c
+    let b ← decColorArg b
+    let l ← decOptS l
+    pure (.init c b (decKw kw) l, r)
+  | "F" :: c :: b :: r => do
+    let c ← decColor c
+    let b ← decColor b
+    pure (.fromColor c b, r)
+  | "P" :: s :: r => do
+    let s ← decS s
+    pure (.parse s, r)
+  | "A" :: r => do
+    let (a, r) ← decRoute r
+    let (b, r) ← decRoute r
+    pure (.add a b, r)
+  | "O" :: r => do let (a, r) ← decRoute r; pure (.addNone a, r)
+  | "C" :: r => do let (a, r) ← decRoute r; pure (.copy a, r)
+  | "U" :: l :: r => do
+    let l ← decOptS l
+    let (a, r) ← decRoute r
+    pure (.updateLink l a, r)
+  | "W" :: r => do let (a, r) ← decRoute r; pure (.withoutColor a, r)
+  | "T" :: r => do let (a, r) ← decRoute r; pure (.touch a, r)
+  | "B" :: r => do let (a, r) ← decRoute r; pure (.background a, r)
+  | "H" :: n :: r => do
+    let n ← n.toNat?
+    let (rs, r) ← decRoutes n r
+    pure (.chain rs, r)
+  | _ => none
+partial def decRoutes : Nat → List String → Option (List Route × List String)
+  | 0, r => some ([], r)
+  | n + 1, r => do
+    let (a, r) ← decRoute r
+    let (as, r) ← decRoutes n r
+    pure (a :: as, r)
+end
+
+mutual
+/-- Evaluate a route with the model's constructors, left to right (first exception wins). -/
+partial def evalRoute (v : Variant) : Route → Except StyleErr Style
+  | .null => .ok Style.null
+  | .init c b kw l => Style.init v c b kw l
+  | .fromColor c b => .ok (Style.fromColor v c b)
+  | .parse s => Style.parse v s
+  | .add a b => do
+    let a ← evalRoute v a
+    let b ← evalRoute v b
+    pure (Style.add v a b)
+  | .addNone a => do let a ← evalRoute v a; pure (Style.addOpt v a none)
+  | .copy a => do let a ← evalRoute v a; pure a.copy
+  | .updateLink l a => do let a ← evalRoute v a; pure (Style.updateLink v a l)
+  | .withoutColor a => do let a ← evalRoute v a; pure (Style.withoutColor v a)
+  | .touch a => do let a ← evalRoute v a; pure a.strTouch
+  | .background a => do
+    -- `background_style`: `Style(bgcolor=self.bgcolor)` (style.py:382-384)
+    let a ← evalRoute v a
+    Style.init v none (a.bgcolor.map .color) [] none
+  | .chain rs => do
+    let ss ← evalRoutes v rs
+    Style.chain v ss
+partial def evalRoutes (v : Variant) : List Route → Except StyleErr (List Style)
+  | [] => .ok []
+  | r :: rs => do
+    let s ← evalRoute v r
+    let ss ← evalRoutes v rs
+    pure (s :: ss)
+end
+
+def decFullRoute (s : String) : Option Route :=
+  match decRoute (s.splitOn ";") with
+  | some (r, []) => some r
+  | _ => none
+
+def answer (f : Option String) : String := f.getD "unmodelled"
+
+def handlers : List (String × (List String → String)) := [
+  ("color_parse", fun a => match a with
+    | [fl, s] => answer do
+      let v ← decFlags fl
+      let s ← decS s
+      pure (match Color.parse v s with
+        | .ok c => "ok:" ++ encColor (some c)
+        | .error e => encErr e)
+    | _ => "bad-args"),
+  ("style_parse", fun a => match a with
+    | [fl, s] => answer do
+      let v ← decFlags fl
+      let s ← decS s
+      pure (match Style.parse v s with
+        | .ok st => "ok:" ++ encStyle st ++ "|n" ++ encBool st.isNull
+        | .error e => encErr e)
+    | _ => "bad-args"),
+  ("normalize", fun a => match a with
+    | [fl, s] => answer do
+      let v ← decFlags fl
+      let s ← decS s
+      pure (match Style.normalize v s with
+        | .ok t => "ok:" ++ encStr t
+        | .error e => encErr e)
+    | _ => "bad-args"),
+  ("route", fun a => match a with
+    | [fl, r] => answer do
+      let v ← decFlags fl
+      let r ← decFullRoute r
+      pure (match evalRoute v r with
+        | .ok st => "ok:" ++ encState st
+        | .error e => encErr e)
+    | _ => "bad-args"),
+  -- two routes: are the results `==`, and are their stored hash keys equal
+  ("route_pair", fun a => match a with
+    | [fl, r1, r2] => answer do
+      let v ← decFlags fl
+      let r1 ← decFullRoute r1
+      let r2 ← decFullRoute r2
+      pure (match evalRoute v r1, evalRoute v r2 with
+        | .ok x, .ok y => "eq=" ++ encBool (Style.eq x y) ++ " hasheq=" ++ encBool (decide (x.hashKey = y.hashKey))
+        | .error e, _ => encErr e
+        | _, .error e => encErr e)
+    | _ => "bad-args")
+]
 
 end RichModel.Drv.C06
